@@ -239,7 +239,7 @@ theorem ackInv_handleMsgs (ms : List Msg) (e : Ep) (hi : AckInv e) : AckInv (han
     unfold handleMsgs
     split
     · exact hi
-    · exact ih _ (ackInv_handleMsg e m hi)
+    · exact ih _ (ackInv_handleMsg _ m (ackInv_of_view (e := e) rfl hi))
 
 theorem ackInv_recvRaw (e : Ep) (c : Bytes) (hi : AckInv e) : AckInv (recvRaw e c).1 := by
   unfold recvRaw
